@@ -283,10 +283,12 @@ type Req struct {
 	Sym     plugin.Symbolizer
 	UI      *UI
 	Writer  *Writer
-	Fetcher *Fetcher
-	HTTP    func(args *plugin.HTTPServerArgs) error
-	RT      http.RoundTripper
-	NoFetch bool // use pprof's own fetcher (files / URLs)
+	// OSWriter: leave Options.Writer unset, so that pprof writes output files itself (relative to the working directory)
+	OSWriter bool
+	Fetcher  *Fetcher
+	HTTP     func(args *plugin.HTTPServerArgs) error
+	RT       http.RoundTripper
+	NoFetch  bool // use pprof's own fetcher (files / URLs)
 	// DefaultSym: let pprof build its own symbolizer on top of Obj and RT
 	DefaultSym bool
 }
@@ -377,6 +379,9 @@ func run(q Req, capture bool) *Res {
 		fe = &Fetcher{Srcs: q.Sources}
 	}
 	o := &plugin.Options{Writer: w, Flagset: fs, UI: ui, Obj: q.Obj, Sym: q.Sym, HTTPServer: q.HTTP, HTTPTransport: q.RT}
+	if q.OSWriter {
+		o.Writer = nil
+	}
 	if !q.NoFetch {
 		o.Fetch = fe
 	}
